@@ -99,6 +99,7 @@ func init() {
 	extraLetters["CC"] = func(w *World, arg string) bool { return w.compactAll(arg) }
 	extraLetters["Mi"] = func(w *World, arg string) bool { return w.migrateLetter(arg) }
 	extraLetters["Bk"] = func(w *World, arg string) bool { return w.backupLetter(arg) }
+	extraLetters["F"] = func(w *World, arg string) bool { return w.firstCallLetter(arg) }
 }
 
 // compactLetter: arg "<mode>,<cutoff µs>", mode s|m|o
@@ -358,6 +359,38 @@ func (w *World) CheckVersionsAfter(letter string, before VerSnap, keep bool) {
 			}
 		}
 	}
+}
+
+// ---- first calls on a fresh handle ------------------------------------------
+
+// firstCallLetter: arg "<flags>/<group>". Close, optionally remove the index files ("x"),
+// reopen (read-only with "r") and let ONE group of read calls be the first thing the handle
+// sees (w walk, c consume, g get, k key, t time, s stat, n next, f find helpers): nothing has
+// loaded a segment or rebuilt an index before them. The usual full observation follows as
+// the observation of the letter. Leaf letter: with "r" the world is left on the read-only handle.
+func (w *World) firstCallLetter(arg string) bool {
+	flags, group, _ := strings.Cut(arg, "/")
+	if w.L != nil {
+		if err := w.L.Close(); err != nil {
+			w.failf("C01", "Close failed: %v", err)
+		}
+		w.L = nil
+	}
+	if strings.Contains(flags, "x") {
+		idx, _ := filepath.Glob(filepath.Join(w.Dir, "*.index"))
+		for _, p := range idx {
+			_ = os.Remove(p)
+		}
+	}
+	o := w.Cfg.Options()
+	o.Readonly = strings.Contains(flags, "r")
+	if err := w.open(o); err != nil {
+		w.failf("C01,C11,C19", "Open(%s) failed: %v", flags, err)
+		return false
+	}
+	m := map[string]ObsMask{"w": ObsWalk, "c": ObsConsume, "g": ObsGet, "k": ObsKey, "t": ObsTime, "s": ObsStat, "n": ObsNext, "f": ObsTrim}[group]
+	w.Observe(m)
+	return true
 }
 
 // ---- C20: backup --------------------------------------------------------
